@@ -22,6 +22,8 @@ pub enum Variant {
     Rel,
     /// as Rel but without the macro_sep feature (the crate's default feature set)
     Nosep,
+    /// as Dbg but without the macro_sep feature
+    DbgNosep,
 }
 impl Variant {
     pub fn name(self) -> &'static str {
@@ -29,9 +31,10 @@ impl Variant {
             Variant::Dbg => "dbg",
             Variant::Rel => "rel",
             Variant::Nosep => "nosep",
+            Variant::DbgNosep => "dbgnosep",
         }
     }
-    pub const ALL: [Variant; 3] = [Variant::Dbg, Variant::Rel, Variant::Nosep];
+    pub const ALL: [Variant; 4] = [Variant::Dbg, Variant::Rel, Variant::Nosep, Variant::DbgNosep];
 }
 
 #[derive(Debug, Clone, Copy, PartialEq)]
@@ -418,6 +421,7 @@ macro_rules! adapter {
 adapter!(dump_dbg, sas_lexer_dbg);
 adapter!(dump_rel, sas_lexer_rel);
 adapter!(dump_nosep, sas_lexer_nosep);
+adapter!(dump_dbgnosep, sas_lexer_dbgnosep);
 
 /// Lex `src` with the given variant. Never panics, never hangs (iteration budget of the hook).
 pub fn lex(v: Variant, src: &str) -> Lexed {
@@ -425,6 +429,7 @@ pub fn lex(v: Variant, src: &str) -> Lexed {
         Variant::Dbg => guarded(|| dump_dbg(src)),
         Variant::Rel => guarded(|| dump_rel(src)),
         Variant::Nosep => guarded(|| dump_nosep(src)),
+        Variant::DbgNosep => guarded(|| dump_dbgnosep(src)),
     }
 }
 
